@@ -297,7 +297,7 @@ bool FileLogger::rotate(bool force)
 			rlst.push_back(ostr.str());
 		}
 
-		for (unsigned ii(_rotnum); ii; --ii)
+		for (unsigned ii(static_cast<unsigned>(rlst.size()) - 1); ii; --ii) // as many generations as were listed (at most max_rotation)
 			rename (rlst[ii - 1].c_str(), rlst[ii].c_str());
 	}
 
